@@ -126,7 +126,7 @@ def run_pack(work, cfgname, faults, keep=False, healthy_repeat=False):
     tmpbase = os.path.join(work, "tmpbase")
     os.makedirs(tmpbase, exist_ok=True)
     fmt = None if mode == "default" else os.path.join(tmpbase, "t-{uuid}-{partition}")
-    retry = dict(stop_max_attempt_number=R, wait_fixed=0)
+    retry = dict(wait_exponential_multiplier=1, wait_exponential_max=1, stop_max_attempt_number=R)    # the keys of the library's own default
     # own the randomness: uuid4 becomes a deterministic counter (unique values are needed because
     # dask.delayed(pure=False) names its tasks with uuid4, and the synchronous scheduler orders ready tasks by name)
     counter = [0]
